@@ -8,7 +8,7 @@ from .. import core, driver, mutate, oracle, render
 
 ID = "C17"
 LEVEL = "fault_enumeration"
-RULE = ("fault enumeration x Hypothesis placement: each of the catalogued fault kinds (vf/mutate.py: 73 error/critical kinds and 15 "
+RULE = ("fault enumeration x Hypothesis placement: each of the catalogued fault kinds (vf/mutate.py: %d error/critical kinds and 15 "
         "warning kinds, each with the position pdpy11 documents for that diagnostic) is planted into generated host programs at a drawn "
         "position (first / middle / last statement, inside .repeat, inside an included file, inside the 2nd or 3rd linked file) with "
         "drawn text before it (tabs, non-ASCII comments and strings, labels and tabs on the culprit's own line). Oracles: (1) universal, "
@@ -16,7 +16,7 @@ RULE = ("fault enumeration x Hypothesis placement: each of the catalogued fault 
         "text, 0 <= start <= end <= len; (2) the first span of the first diagnostic with the planted identifier starts at the culprit: "
         "checked on the handler's offsets, on the 'file:line:col' rendering (line/column recomputed by the harness, a tab = 4 columns) "
         "and, for a sample, on the CLI's bare output and the graphical output's file header and gutter line. Non-trivial: culprit not "
-        "in column 1 of line 1; distinct = (fault kind, placement class, prefix class).")
+        "in column 1 of line 1; distinct = (fault kind, placement class, prefix class).") % (len(mutate.FAULTS), len(mutate.WARNINGS))
 ASSUMPTIONS = ["the anchor table of vf/mutate.py (token / mnemonic / left operand / stop position) was read off pdpy11's report call sites "
                "and calibrated on the repaired tree", "column = 1 + characters before the token on its line, a tab counting four"]
 
